@@ -296,6 +296,7 @@ func recFragments(c *core.Ctx, r *core.Reporter) {
 			}
 			ops := setOps(fn)
 			ok := false
+			var cutSets []ssa.Value
 			why := "no visited-set / memo test found in " + name
 			for _, t := range ops {
 				if t.store {
@@ -323,6 +324,7 @@ func recFragments(c *core.Ctx, r *core.Reporter) {
 					}
 					if before {
 						ok = true
+						cutSets = append(cutSets, t.set)
 					}
 				}
 				if !ok {
@@ -335,6 +337,18 @@ func recFragments(c *core.Ctx, r *core.Reporter) {
 				}
 				if !ok {
 					why = "the visited set / memo is tested but not marked before the descent"
+				}
+			}
+			// the mark is permanent: a set whose entries are released again (delete after the descent) still stops cycles, but
+			// a fragment reached along several spread paths is expanded once per path — exponential in the number of fragments
+			if ok {
+				for _, site := range core.BuiltinCalls(fn, "delete") {
+					for _, cs := range cutSets {
+						if len(site.Common().Args) > 0 && types.Identical(site.Common().Args[0].Type(), cs.Type()) && sameSet(site.Common().Args[0], cs) {
+							ok = false
+							why = "the visited mark is released again (delete at " + c.Pos(site.Pos()) + "): cycles still end, but a fragment reached along k spread paths is expanded k times, so fragments that spread each other in a chain are expanded 2^n times"
+						}
+					}
 				}
 			}
 			shape := "recursive descent"
@@ -553,6 +567,50 @@ func recMemo(c *core.Ctx, r *core.Reporter) {
 					hit = true
 				}
 			}
+		}
+		// the miss path stores: no exit is reachable from work done after the lookup without passing the store (a store
+		// that sits under a condition leaves some results unmemoised: recomputed on every call, and — where callers rely on
+		// the identity of the memoised value — handed out as a fresh object each time)
+		uncond := true
+		avoid := map[*ssa.BasicBlock]bool{store.Block(): true}
+		fromLookup := func(v ssa.Value) bool {
+			for _, o := range core.Origins(v) {
+				if o == ssa.Value(look) {
+					return true
+				}
+				if ex, ok := o.(*ssa.Extract); ok && ex.Tuple == ssa.Value(look) {
+					return true
+				}
+			}
+			return false
+		}
+		cand := core.ReachableAvoiding(look.Block(), avoid)
+		cand[look.Block()] = true
+		for rb := range cand {
+			if rb == store.Block() || len(rb.Instrs) == 0 {
+				continue
+			}
+			ret, ok := rb.Instrs[len(rb.Instrs)-1].(*ssa.Return)
+			if !ok {
+				continue
+			}
+			for i := range ret.Results {
+				v := core.RetVal(ret, i)
+				if core.IsNilConst(v) || fromLookup(v) {
+					continue // an error exit, or the hit arm handing out the memoised value
+				}
+				if _, isConst := v.(*ssa.Const); isConst {
+					continue
+				}
+				uncond = false
+			}
+		}
+		if core.InAnyLoop(store.Block()) {
+			uncond = true // stored on every iteration of the collecting loop (whether the loop runs is a value question)
+		}
+		if keyOK && sameKey && first && hit && !uncond {
+			r.Bad(row.fn, store.Pos(), "%s: the store into %s is conditional — some computed results leave the function without being memoised: they are recomputed on every call and handed out as a fresh object each time, so memos keyed by their identity (the overlap rule's comparison sets) never hit and the work multiplies with nesting depth", row.fn, row.memo)
+			continue
 		}
 		r.Check(keyOK && sameKey && first && hit, row.fn, look.Pos(),
 			"memo looked up by parameter key before any work; hit returns; miss path stores under the same key",
